@@ -839,6 +839,27 @@ func (e *env) facts() facts {
 	return f
 }
 
+// confirmUnreadable is asked after a NewReader that failed although the cache had just reported the
+// offset readable.  The disk store runs its own collector every 30 s (Storer.gcLogJob) and the
+// memory backend collects on size pressure; neither can be paused by the harness, and a collected
+// offset simply is no longer valid (GetReader answers ErrNotExist for an offset outside the range as
+// well as for a missing file).  A hole is different: it stays reported readable and stays
+// unreadable.  So the question is asked again and only the persistent answer is a violation.
+func (e *env) confirmUnreadable(who, rid string, off int64) bool {
+	if !e.ch.IsValidOffset(syncer.Offset{RunId: rid, Offset: off}) {
+		e.h.Op(who, "IsValidOffset(again)", fmt.Sprintf("%s:%d", rid, off), "false")
+		e.run.Count("newreader_error_excused_offset_collected_meanwhile", 1)
+		return false
+	}
+	r, err := e.openReader(who, rid, off, e.m.ChangeSeq(), e.m.CurID())
+	if err == nil {
+		e.closeReader(r)
+		e.run.Count("newreader_error_transient_second_attempt_succeeded", 1)
+		return false
+	}
+	return err != errHung
+}
+
 // expectReadable: the cache said a read at off is possible (why = which answer said so); open a
 // reader there and verify what it delivers up to the known right edge.  Returns false when a
 // violation or inconclusive result was recorded.
@@ -850,6 +871,9 @@ func (e *env) expectReadable(f facts, off int64, why string) bool {
 		return false
 	}
 	if err != nil {
+		if !e.confirmUnreadable("probe", f.rid, off) {
+			return true
+		}
 		e.violate(fmt.Sprintf("iii-unreadable|%s|%s|newreader-error|snapshot=%s", e.be(), why, f.snapshot),
 			fmt.Sprintf("(iii)/(iv)/(v) the cache reported offset %d readable (%s) but NewReader failed: %v", off, why, err), ctx)
 		return false
@@ -1148,7 +1172,7 @@ func (e *env) openAt(class string, delayed bool) *rdr {
 	}
 	rd, err := e.openReader("rd", rid, x, s1, e1)
 	if err != nil {
-		if v && err != errHung {
+		if v && err != errHung && e.confirmUnreadable("rd", rid, x) {
 			e.violate(fmt.Sprintf("iii-unreadable|%s|valid|newreader-error|snapshot=%s", e.be(), f.snapshot),
 				fmt.Sprintf("(iii) IsValidOffset(%d)=true, nothing happened in between, NewReader failed: %v", x, err), map[string]any{"model": fmt.Sprintf("%+v", f)})
 		}
@@ -1684,6 +1708,9 @@ func (c *conc) readerLoop(idx int) {
 				(e.be() == "mem" && e.cfg.MaxSize > 0)
 			if excused {
 				e.run.Count("valid_then_gone_excused_by_overlapping_reset_or_collection", 1)
+				continue
+			}
+			if !e.confirmUnreadable(who, rid, x) {
 				continue
 			}
 			e.violate(fmt.Sprintf("iii-unreadable|%s|valid|newreader-error|snapshot=%s|concurrent", e.be(), e.facts().snapshot),
